@@ -610,7 +610,7 @@ pub enum TpEdit {
     Multi(Vec<TpEdit>),
 }
 
-fn tp_apply(orig: &[u8], e: &TpEdit) -> Vec<u8> {
+pub fn tp_apply(orig: &[u8], e: &TpEdit) -> Vec<u8> {
     let tps = wire::parse_transport_params(orig).unwrap_or_default();
     let enc = |tps: &[(u64, Vec<u8>)]| {
         let mut o = vec![];
@@ -665,7 +665,7 @@ fn tp_apply(orig: &[u8], e: &TpEdit) -> Vec<u8> {
     }
 }
 
-fn varbytes(v: u64) -> Vec<u8> {
+pub fn varbytes(v: u64) -> Vec<u8> {
     let mut o = vec![];
     put_var(&mut o, v);
     o
